@@ -44,7 +44,8 @@ func c15Canonical(h []byte) []byte {
 	return append(s, 0x88, 0xac)
 }
 
-var c15FQ *bt.FeeQuote
+// the quote handed to ChangeToAddress (package level: replays and the coverage-guided stage call the judges without Run)
+var c15FQ = bt.NewFeeQuote()
 
 // c15Seen: violation keys already reported with full detail by this process.
 var c15Seen = map[string]bool{}
@@ -128,7 +129,6 @@ func init() {
 			return
 		}
 		c.Info("model_vectors_reproduced", 4)
-		c15FQ = bt.NewFeeQuote()
 
 		c.Phase("positive")
 		np := 2000
